@@ -141,6 +141,11 @@ func Encode(hrp string, data []byte) (string, error) {
 
 // Decode decodes a Bech32 string. If the string is uppercase, the HRP will be uppercase.
 func Decode(s string) (hrp string, data []byte, err error) {
+	for p, c := range s {
+		if c < 33 || c > 126 {
+			return "", nil, fmt.Errorf("invalid character: s[%d]=%d", p, c)
+		}
+	}
 	if strings.ToLower(s) != s && strings.ToUpper(s) != s {
 		return "", nil, fmt.Errorf("mixed case")
 	}
